@@ -150,7 +150,7 @@ Definition fetch_value : M unit :=
     (if sk_token_number sk <? sc_tokens_parsed s then panic 118 else ret tt) ;;;
     insert_token (sk_token_number sk - sc_tokens_parsed s) (span_empty (sk_mark sk), TKey) ;;;
     (if is_ifm then
-       if m_line (sk_mark sk) <? m_line start then fail 98 start
+       if (m_line (sk_mark sk) <? m_line start) || (m_index (sk_mark sk) + SIMPLE_KEY_MAX <? m_index start) then fail 98 start
        else if starts_ifm then insert_token (sk_token_number sk - sc_tokens_parsed s) (span_empty (sk_mark sk), TFlowMappingStart)
        else ret tt
      else ret tt) ;;;
